@@ -72,8 +72,8 @@ func (s LongStr) build() string {
 		pat = "a"
 	}
 	b := make([]byte, s.N)
-	for i := range b {
-		b[i] = pat[i%len(pat)]
+	for n := copy(b, pat); n < len(b); { // b[i] = pat[i mod len(pat)], by doubling
+		n += copy(b[n:], b[:n])
 	}
 	for _, e := range s.Edits {
 		b[imod(e.Pos, s.N)] = byte(e.Bits)
